@@ -507,6 +507,30 @@ impl<'a, SE: extensions::ShellExtensions> SimpleCommand<'a, SE> {
         self,
         func_registration: functions::Registration,
     ) -> Result<ExecutionSpawnResult, error::Error> {
+        // A function invoked as one of several stages in a pipeline owns its shell and must
+        // run concurrently with the other stages; otherwise it would block forever as soon as
+        // it fills the pipe to a consumer that hasn't been started yet.
+        if let ShellForCommand::OwnedShell { target, .. } = self.shell {
+            let mut shell = *target;
+            let (command_name, params, args) = (self.command_name, self.params, self.args);
+            let join_handle = tokio::spawn(async move {
+                let cmd_context = ExecutionContext {
+                    shell: &mut shell,
+                    command_name,
+                    params,
+                };
+                let spawn_result =
+                    invoke_shell_function(func_registration, cmd_context, &args[1..]).await?;
+                match spawn_result.wait().await? {
+                    crate::results::ExecutionWaitResult::Completed(result) => Ok(result),
+                    crate::results::ExecutionWaitResult::Stopped(_) => {
+                        Ok(ExecutionResult::stopped())
+                    }
+                }
+            });
+            return Ok(ExecutionSpawnResult::StartedTask(join_handle));
+        }
+
         let mut shell = self.shell;
         let last_arg = Self::take_last_arg(&self.args);
 
